@@ -682,6 +682,13 @@ func (s *Session) quiesce(final bool) {
 		select {
 		case <-ch.Done():
 			f["chdone"] = true
+			// Err() as it reads now that everything has settled (the watcher's read at the moment Done() fired is
+			// in the "chdone" event)
+			if ch.Err() == nil {
+				f["cherr"] = "ok"
+			} else {
+				f["cherr"] = "err"
+			}
 		default:
 		}
 	}
